@@ -30,6 +30,8 @@ def run_one(sid, tier, budget):
     d = os.path.join(VERIF, "seeded", sid)
     agent = json.load(open(os.path.join(d, "agent_meta.json"))) if os.path.exists(os.path.join(d, "agent_meta.json")) else {}
     prop = (agent.get("property") or sid[:3]).upper()[:3]
+    if not prop.startswith("C"):
+        prop = "C" + sid[1:3]
     meta = {"id": sid, "property": prop, "summary": agent.get("summary"), "needs": agent.get("needs"),
             "origin": "independent sub-agent given only the property text and a scratch worktree"}
     work = tempfile.mkdtemp(prefix=f"verif-seed-{sid}-", dir="/tmp")
@@ -50,7 +52,13 @@ def run_one(sid, tier, budget):
         do = sh(f"cd {work} && {env} PYTHONPATH={work}/orig/src /venv/bin/python {d}/demo.py")
         meta["demo_exit_changed"] = dm.returncode
         meta["demo_exit_pristine"] = do.returncode
-        meta["confirmed"] = meta["suite_ok"] and dm.returncode == 1 and do.returncode == 0
+        quiet = sid.startswith("q")
+        meta["kind"] = "behaviour-preserving refactoring (the check must stay QUIET)" if quiet else "seeded bug"
+        if quiet:
+            meta["changes_not_promised"] = agent.get("changes_not_promised")
+            meta["confirmed"] = meta["suite_ok"] and dm.returncode == 0 and do.returncode == 0
+        else:
+            meta["confirmed"] = meta["suite_ok"] and dm.returncode == 1 and do.returncode == 0
         envd = dict(os.environ, VERIF_REPO_SRC=f"{work}/mut/src", VERIF_OUT_DIR=f"{work}/out")
         if budget:
             envd["VERIF_BUDGET_S"] = str(budget)
@@ -72,6 +80,10 @@ def run_one(sid, tier, budget):
                     shutil.copy(rp, os.path.join(d, "replay_found_by_check.json"))
                     meta["check"]["replay"] = f"seeded/{sid}/replay_found_by_check.json"
         meta["caught"] = c.returncode == 1
+        if quiet:
+            meta["quiet_ok"] = c.returncode == 0
+            if c.returncode != 0:
+                meta["check"]["tail"] = c.stdout[-1500:]
         if c.returncode == 3:
             meta["check"]["harness_error"] = (c.stdout + c.stderr)[-800:]
         return meta
@@ -100,7 +112,8 @@ def main():
                          "wall_s": m["check"].get("wall_s"), "verif_head": sh(f"git -C {VERIF} rev-parse --short HEAD").stdout.strip()})
         m["history"] = hist[-12:]
         json.dump(m, open(p, "w"), indent=1)
-        print(m["id"], "confirmed" if m.get("confirmed") else "NOT-CONFIRMED", "CAUGHT" if m.get("caught") else "MISSED",
+        verdict = ("QUIET" if m.get("quiet_ok") else "FALSE-ALARM?") if m["id"].startswith("q") else ("CAUGHT" if m.get("caught") else "MISSED")
+        print(m["id"], "confirmed" if m.get("confirmed") else "NOT-CONFIRMED", verdict,
               m.get("check", {}).get("signature", ""), m.get("check", {}).get("wall_s"))
     allm = []
     for i in sorted(os.listdir(os.path.join(VERIF, "seeded"))):
@@ -111,7 +124,8 @@ def main():
         f.write("# Seeded changes (written by independent sub-agents): confirmation and detection\n\n")
         f.write("| id | property | confirmed (suite 114/11, demo 1/0) | latest check | signature | what it needs |\n|---|---|---|---|---|---|\n")
         for m in allm:
-            f.write(f"| {m['id']} | {m['property']} | {m.get('confirmed')} | {'CAUGHT' if m.get('caught') else 'MISSED'} "
+            verdict = ("QUIET" if m.get("quiet_ok") else "FALSE-ALARM?") if m["id"].startswith("q") else ("CAUGHT" if m.get("caught") else "MISSED")
+            f.write(f"| {m['id']} | {m['property']} | {m.get('confirmed')} | {verdict} "
                     f"({m.get('check', {}).get('wall_s')} s) | {m.get('check', {}).get('signature', '')} | {(m.get('needs') or '')[:300]} |\n")
 
 
